@@ -555,6 +555,43 @@ func opMz(batch int, base uint32, ns []*node) {
 	}))
 }
 
+// mw: doMaybeManifestize(batch) with the real mergeIntoManifest, then READ WINDOWS of the manifestized file.
+// Output: the resulting chunk tree, "|", ts=<TotalSize before>:<TotalSize after>, and per window the bytes StreamContent
+// writes for it over the manifestized list (manifests resolved over HTTP with the window filter of ResolveChunkManifest).
+func opMw(batch int, base uint32, wins string, ns []*node) {
+	tr.Op("mw", append([]string{hx.I(int64(batch)), hx.U(uint64(base)), wins}, nodesTokens(ns)...), hx.Guard(func() []string {
+		resetStore()
+		cs := build(ns)
+		next := base
+		save := func(reader io.Reader, name string, offset int64) (*filer_pb.FileChunk, string, string, error) {
+			data, _ := io.ReadAll(reader)
+			n := &node{manifest: true, cookie: next}
+			next++
+			s := getStore()
+			s.Lock()
+			s.blobs[n.fid()] = data
+			s.Unlock()
+			return &filer_pb.FileChunk{FileId: n.fid(), Mtime: 1}, "", "", nil
+		}
+		before := filer.TotalSize(cs)
+		res, err := filer.VerifDoMaybeManifestize(save, cpChunks(cs), batch)
+		if err != nil {
+			return []string{"err"}
+		}
+		var out []string
+		for _, c := range res {
+			out = observe(c, out)
+		}
+		out = append(out, "|", fmt.Sprintf("ts=%d:%d", before, filer.TotalSize(res)))
+		for _, w := range parseWins(wins) {
+			var buf bytes.Buffer
+			err := filer.StreamContent(lookupHolder{}, &buf, cpChunks(res), w[0], w[1])
+			out = append(out, hx.Err(err)+":"+hx.Hex(buf.Bytes()))
+		}
+		return out
+	}))
+}
+
 // observe prints a chunk as node tokens from what the real code produced (manifest blobs are decoded)
 func observe(c *filer_pb.FileChunk, out []string) []string {
 	fid := c.GetFileIdString()
@@ -995,6 +1032,66 @@ func main() {
 			opSc(whole[1:], ns)
 		})
 	}
+
+	// ---- read windows of manifestized files (op mw): every list of 2 intervals over 0..5 as one batch of 2 and every list of
+	// 3 intervals over 0..3 as batches of 2 and 3 (thorough: 3 over 0..4), in every presentation order the rotation gives,
+	// with EVERY window up to 1 past the last position; then random lists and directed batches whose LAST chunk starts
+	// before and ends after all earlier chunks of its batch, with windows that start past the earlier chunks
+	{
+		exhaustive(2, 5, func(ns []*node, idx int) {
+			opMw(2, 900000, "all.7", ns)
+			if idx%5 == 0 {
+				opMw(1, 900000, "all.7", ns)
+			}
+		})
+		p3 := 3
+		if a.Thorough() {
+			p3 = 4
+		}
+		exhaustive(3, p3, func(ns []*node, idx int) {
+			opMw(2+idx%2, 900000, fmt.Sprintf("all.%d", p3+2), ns)
+		})
+	}
+	for i := 0; i < a.N(120); i++ {
+		n := 1 + g.r.Intn(12)
+		ns := g.randList(n, 40, 1+g.r.Intn(20), g.r.Bool())
+		if g.r.Chance(1, 3) {
+			ns = g.manifestize(ns, 1)
+		}
+		opMw([]int{2, 3, 2, 3, 1, 4, 5}[g.r.Intn(7)], 900000, g.randWins(8, extent(ns)), ns)
+	}
+	for i := 0; i < a.N(60); i++ {
+		// batches of k: k-1 chunks inside [10,40), then one chunk around all of them; windows start behind the inner chunks
+		k := 2 + g.r.Intn(3)
+		nb := 1 + g.r.Intn(3)
+		var ns []*node
+		var wins []string
+		for b := 0; b < nb; b++ {
+			lo, hi := int64(math.MaxInt64), int64(0)
+			for j := 0; j < k-1; j++ {
+				d := g.randData(30, 10, 50, 90, false)
+				d.off += 10
+				d.mtime = int64(len(ns) + 1)
+				d.key = uint64(100 + len(ns))
+				ns = append(ns, d)
+				if d.off < lo {
+					lo = d.off
+				}
+				if e := d.off + int64(d.size); e > hi {
+					hi = e
+				}
+			}
+			g.cookie++
+			wo := lo - 1 - int64(g.r.Intn(int(lo)))
+			we := hi + 1 + int64(g.r.Intn(12))
+			ns = append(ns, &node{off: wo, size: uint64(we - wo), mtime: int64(len(ns) + 1), vid: 2, key: uint64(100 + len(ns)), cookie: g.cookie})
+			wins = append(wins, fmt.Sprintf("%d+%d", hi, we-hi), fmt.Sprintf("%d+1", hi+int64(g.r.Intn(int(we-hi)))), fmt.Sprintf("%d+%d", lo, we+2-lo))
+		}
+		if g.r.Chance(1, 3) {
+			ns = append(ns, g.randData(60, 10, 50, 90, false)) // a remainder that stays a plain chunk
+		}
+		opMw(k, 900000, strings.Join(wins, "_")+"_"+g.randWins(3, extent(ns)), ns)
+	}
 }
 
 func replay(ops [][]string) {
@@ -1019,6 +1116,8 @@ func replay(ops [][]string) {
 			opSc(op[1], parseNodes(op[2:]))
 		case "mz":
 			opMz(int(pi(op[1])), uint32(pi(op[2])), parseNodes(op[3:]))
+		case "mw":
+			opMw(int(pi(op[1])), uint32(pi(op[2])), op[3], parseNodes(op[4:]))
 		}
 	}
 }
